@@ -372,6 +372,8 @@ def gen_history_spec(rng: random.Random) -> dict:
         if rng.random() < 0.7:
             ed['solids'] = [gen_solid(rng, nasty, 0, 0, False, 0.1)]
         edits['ent_edits'].append(ed)
+    edits['removals'] = {'brushes': [rng.randrange(8)] if rng.random() < 0.3 else [],
+                         'entities': [rng.randrange(8)] if rng.random() < 0.3 else []}
     base['history'] = {
         'emptied': emptied, 'edits': edits,
         'api': {'brush': rng.choice(['add_brush', 'add_brushes', 'append']), 'ent': rng.choice(['add_ent', 'add_ents', 'create_ent']),
@@ -615,7 +617,8 @@ def populate(vmf, spec: dict, api: dict | None = None) -> None:
     """Add the content of a (partial) specification to an existing map through the public API.  `api` chooses between the
     equivalent public ways of adding: brush: add_brush | add_brushes | append (to VMF.brushes); ent: add_ent | add_ents |
     create_ent; vis: append (to VMF.vis_tree) | create (create_visgroup, for visgroups without children).
-    `spec['ent_edits']` edits entities the map already has: outputs (add_out), fixups, solids (appended to Entity.solids)."""
+    `spec['ent_edits']` edits entities the map already has: outputs (add_out), fixups, solids (appended to Entity.solids);
+    `spec['removals']` removes brushes (remove_brush / Solid.remove) and entities (remove_ent) by position afterwards."""
     from srctools.vmf import (Entity, Solid, Side, Output, EntityGroup, VisGroup, Camera, Cordon, UVAxis, DispFlag,
                               TriangleTag, Vec4)
     from srctools.math import Vec
@@ -782,6 +785,18 @@ def populate(vmf, spec: dict, api: dict | None = None) -> None:
             ent.fixup[var] = val
         for s in ed.get('solids', ()):
             ent.solids.append(mk_solid(s))
+    # removals through the public API (after the additions): remove_brush / Solid.remove, remove_ent
+    rm = spec.get('removals') or {}
+    for i in rm.get('brushes', ()):
+        if vmf.brushes:
+            b = vmf.brushes[i % len(vmf.brushes)]
+            if i % 2:
+                b.remove()
+            else:
+                vmf.remove_brush(b)
+    for i in rm.get('entities', ()):
+        if vmf.entities:
+            vmf.remove_ent(vmf.entities[i % len(vmf.entities)])
 
 
 # ------------------------------------------------------------------------------------------------ observer
